@@ -41,7 +41,7 @@ SHARD_TIMEOUT = {'quick': 400, 'thorough': 2400}
 def plan(tier, seed):
     n = {'quick': 1, 'thorough': 15}[tier]
     specs = split_seeds('d%s' % seed, 320 * n, 10, 'diff')
-    ncfg, nslice = {'quick': (3, 10), 'thorough': (12, 8)}[tier]
+    ncfg, nslice = {'quick': (2, 11), 'thorough': (12, 8)}[tier]
     for c in range(ncfg):
         for i in range(nslice):
             specs.append({'kind': 'fault', 'tier': tier, 'cfg': 'f%s:%d' % (seed, c), 'slice': [i, nslice]})
@@ -393,18 +393,26 @@ def run_fault_host(wd, mod, base, marks, cfg_seed, target=None, fault_cls=Inject
             raise fault_cls('injected at %s:%s#%d' % target)
         return None
 
-    result = exc = None
-    with inject.LineInjector(lambda fn: fn.startswith(deep_root), on_line):
-        tracer = ho.tracer(wd)
-        old = sys.gettrace()
+    res = {}
+
+    def body(tracer):
+        # a thread of its own: the stack below the host frames is then only the small threading bootstrap
         sys.settrace(tracer)
         try:
-            result = mod.entry(2)
+            res['result'] = mod.entry(2)
         except BaseException as e:  # noqa
-            exc = e
+            res['exc'] = e
         finally:
-            sys.settrace(old)
+            sys.settrace(None)
+
+    with inject.LineInjector(lambda fn: fn.startswith(deep_root), on_line):
+        t = threading.Thread(target=body, args=(ho.tracer(wd),), name='vf-fault-host')
+        t.start()
+        t.join(60)
     ho.stop()
+    result, exc = res.get('result'), res.get('exc')
+    if t.is_alive():
+        exc = RuntimeError('vf: fault host did not finish')
     acts = [(e[2], e[3]) for e in plugins.EVENTS]
     second = _second_invocation_actions(plugins.EVENTS, rig)
     info = {'result': result, 'exc': exc, 'escapes': list(ho.escapes), 'fired': state['fired'], 'chosen': chosen,
